@@ -80,6 +80,11 @@ unsigned int IOQueue::Size() const {
  * Append (length) bytes of data to the buffer
  */
 void IOQueue::Write(const uint8_t *data, unsigned int length) {
+  if (length == 0) {
+    // nothing to store, don't add an empty block
+    return;
+  }
+
   unsigned int bytes_written = 0;
   if (m_blocks.empty()) {
     AppendBlock();
